@@ -581,3 +581,80 @@ Definition holds_recovery (old new : blockid) (ref_old ref_new : coin_listing)
   else if N.eqb tip new then (if listing_eqb coins ref_new then VOk else VBadCoins)
   else if N.eqb tip old then (if listing_eqb coins ref_old then VOk else VBadCoins)
   else VBadTip.
+
+(* ------------------------------------------------------------------------------------------ *)
+(* Executable helpers for the drivers and for concrete examples.                               *)
+
+(* a finite block store *)
+Fixpoint store_of (l : list (blockid * entry)) : store :=
+  fun id => match l with
+            | [] => None
+            | (i, e) :: r => if N.eqb id i then Some e else store_of r id
+            end.
+
+(* the undo data connecting block b on state s records (None: some input is not an unspent coin) *)
+Fixpoint all_some (l : list (option coin)) : option (list coin) :=
+  match l with
+  | [] => Some []
+  | Some c :: r => match all_some r with Some r' => Some (c :: r') | None => None end
+  | None :: _ => None
+  end.
+Fixpoint all_some2 (l : list (list (option coin))) : option blockundo :=
+  match l with
+  | [] => Some []
+  | x :: r => match all_some x, all_some2 r with
+              | Some x', Some r' => Some (x' :: r')
+              | _, _ => None
+              end
+  end.
+Definition compute_undo (h : nat) (b : block) (s : overlay) : option blockundo :=
+  match b with
+  | [] => None
+  | t0 :: rest => all_some2 (undo_txs h rest (rollforward_tx h t0 s))
+  end.
+
+(* the consistent database of a tip *)
+Definition db_of_listing (tip : blockid) (l : coin_listing) : db :=
+  (KBest, VBlock tip) :: map (fun oc => (KCoin (fst oc), VCoin (snd oc))) l.
+
+(* the cache log of the node that went from old to new while the database still holds old: the same
+   operations ReplayBlocks performs (DisconnectBlock down to the fork, then the new branch applied) *)
+Definition reorg_log (st : store) (m : db) (new old : blockid) : replay_result :=
+  replay_blocks st (apply_ops (bw_header new old) m).
+
+(* flush a cache log over database m towards tip new, cutting a partial batch after every n-th entry *)
+Definition flush_batches (m : db) (ov : overlay) (n : nat) (new : blockid) : option (list batch) :=
+  batch_write m (with_cuts n 0 (dirty_of ov [])) new.
+
+(* one start-up: ReplayBlocks and its final flush, uninterrupted. None = start-up fails. *)
+Definition recover_once (st : store) (m : db) (n : nat) : option db :=
+  match replay_blocks st m with
+  | ReplayNoop => Some m
+  | ReplayError _ => None
+  | ReplayDone new ov =>
+      match flush_batches m ov n new with
+      | Some bs => Some (apply_batches bs m)
+      | None => None
+      end
+  end.
+
+(* the mid-flush invariant, on listings: every listed coin of the crashed database is the coin of the
+   old or of the new tip at that outpoint, and every coin common to both tips is present *)
+Fixpoint listing_get (l : coin_listing) (o : outpoint) : option coin :=
+  match l with
+  | [] => None
+  | (o', c) :: r => if op_eqb o o' then Some c else listing_get r o
+  end.
+Definition opt_coin_eqb (a b : option coin) : bool :=
+  match a, b with
+  | Some x, Some y => coin_eqb x y
+  | None, None => true
+  | _, _ => false
+  end.
+Definition holds_midflush (ref_old ref_new crashed : coin_listing) : bool :=
+  forallb (fun oc => let o := fst oc in
+                     opt_coin_eqb (Some (snd oc)) (listing_get ref_old o) ||
+                     opt_coin_eqb (Some (snd oc)) (listing_get ref_new o)) crashed
+  && forallb (fun oc => let o := fst oc in
+                        opt_coin_eqb (listing_get crashed o) (listing_get ref_old o) ||
+                        opt_coin_eqb (listing_get crashed o) (listing_get ref_new o)) (ref_old ++ ref_new).
